@@ -239,7 +239,10 @@ class DatasetOnDisk(GetSetDelAttrMixin, NetCDFOnDisk, AbstractDataset):
 
         # first load dimensions
         for dim in dims:
-            data.axes.append(self.axes[dim][dict_indices[dim]])
+            ax = self.axes[dim][dict_indices[dim]]
+            if np.isscalar(ax):
+                continue # dimension indexed with a scalar: it is dropped, like in Dataset.take
+            data.axes.append(ax)
 
         # then normal variables
         for nm in names:
